@@ -3,6 +3,7 @@ package drv
 import (
 	"fmt"
 	"math/rand"
+	"os"
 	"runtime"
 	"sort"
 	"strings"
@@ -28,6 +29,9 @@ type ConcCfg struct {
 	Avoid    map[string]bool
 	Access   bool // record inode accesses and lock events (C14)
 	DiskSz   uint64
+	Crash    bool // record the disk stream of the concurrent part and recover from crash images cut inside it
+	Loss     int
+	MaxImg   int
 }
 
 type HEv struct {
@@ -147,6 +151,9 @@ func RunConc(cfg ConcCfg, t *Trace, seg int) {
 	if cfg.DiskSz == 0 {
 		cfg.DiskSz = 30000
 	}
+	if cfg.Crash {
+		cfg.Unstable = false // every commit waits: a call that returned is durable
+	}
 	d := vdisk.New(cfg.DiskSz)
 	s, err := Start(d, cfg.Unstable)
 	if err != nil {
@@ -255,6 +262,11 @@ func RunConc(cfg ConcCfg, t *Trace, seg int) {
 		Mon.Record(true)
 		inode.VerifAccess = func(ip *inode.Inode, what string) { Mon.Acc(uint64(ip.Inum), what) }
 	}
+	var base *vdisk.Disk
+	if cfg.Crash {
+		quiesce(d, s)
+		base = d.StartRecording()
+	}
 	var mu sync.Mutex
 	var evs []HEv
 	var wg sync.WaitGroup
@@ -270,6 +282,9 @@ func RunConc(cfg ConcCfg, t *Trace, seg int) {
 				c.Cl = cl
 				c.I = cl*1000 + n
 				a := atomic.AddInt64(&seq, 1)
+				if cfg.Crash {
+					d.Mark("inv", c.I)
+				}
 				done := make(chan struct{})
 				go func() { defer close(done); c.Exec(s.API) }()
 				select {
@@ -282,6 +297,9 @@ func RunConc(cfg ConcCfg, t *Trace, seg int) {
 					atomic.StoreInt32(&wedged, 1)
 				}
 				b := atomic.AddInt64(&seq, 1)
+				if cfg.Crash {
+					d.Mark("ret", c.I)
+				}
 				if c.St == "PANIC" {
 					atomic.StoreInt32(&wedged, 1)
 				}
@@ -298,10 +316,47 @@ func RunConc(cfg ConcCfg, t *Trace, seg int) {
 	wg.Wait()
 	_ = r
 	Mon.Yield = nil
+	var stream []vdisk.Event
+	probes := map[int][]*CrashProbe{}
+	if cfg.Crash {
+		if atomic.LoadInt32(&wedged) == 0 {
+			quiesce(d, s)
+		}
+		stream = d.StopRecording()
+		// the history order is the order of the markers in the disk stream
+		pos := map[[2]int]int64{}
+		k := int64(0)
+		for _, e := range stream {
+			if e.Kind == vdisk.EvMark {
+				k++
+				kind := 0
+				if e.Mark == "ret" {
+					kind = 1
+				}
+				pos[[2]int{kind, e.Arg}] = k
+			}
+		}
+		for i := range evs {
+			kind := 0
+			if evs[i].Ev == "ret" {
+				kind = 1
+			}
+			evs[i].Seq = seq + pos[[2]int{kind, evs[i].Call.I}]
+		}
+	}
 	sort.Slice(evs, func(i, j int) bool { return evs[i].Seq < evs[j].Seq })
+	if cfg.Crash && atomic.LoadInt32(&wedged) == 0 {
+		probes = concCrashProbes(cfg, base, stream)
+	}
 	if !cfg.Access {
-		for _, e := range evs {
+		for _, pr := range probes[0] {
+			t.Emit(pr)
+		}
+		for i, e := range evs {
 			t.Emit(e)
+			for _, pr := range probes[i+1] {
+				t.Emit(pr)
+			}
 		}
 	}
 	if cfg.Access {
@@ -338,4 +393,83 @@ func wedgeKind() string {
 		}
 	}
 	return k
+}
+
+// concCrashProbes recovers the real server from crash images cut inside the recorded stream of a concurrent history.
+// The result is indexed by the number of history events (markers) that precede the crash point.
+func concCrashProbes(cfg ConcCfg, base *vdisk.Disk, events []vdisk.Event) map[int][]*CrashProbe {
+	marksBefore := make([]int, len(events)+1)
+	m := 0
+	for i, e := range events {
+		marksBefore[i] = m
+		if e.Kind == vdisk.EvMark {
+			m++
+		}
+	}
+	marksBefore[len(events)] = m
+	var pts []int
+	for p := 0; p <= len(events); p++ {
+		if p > 0 && p < len(events) && events[p-1].Kind == vdisk.EvMark {
+			continue
+		}
+		pts = append(pts, p)
+	}
+	r := rand.New(rand.NewSource(int64(cfg.Seed) + 11))
+	max := cfg.MaxImg
+	if max == 0 {
+		max = 150
+	}
+	if len(pts) > max { // sample, keeping the barrier points (where loss sets are tried) with preference
+		keep := map[int]bool{}
+		for _, p := range pts {
+			if p == len(events) || events[p].Kind == vdisk.EvBarrier {
+				if r.Intn(3) != 0 {
+					keep[p] = true
+				}
+			}
+		}
+		for len(keep) < max {
+			keep[pts[r.Intn(len(pts))]] = true
+		}
+		var q []int
+		for _, p := range pts {
+			if keep[p] && len(q) < max {
+				q = append(q, p)
+			}
+		}
+		pts = q
+	}
+	out := map[int][]*CrashProbe{}
+	seen := map[string]bool{}
+	nimg := 0
+	for _, p := range pts {
+		win := vdisk.Window(events, p)
+		sets := lossSets(len(win), r, cfg.Loss)
+		if !(p == len(events) || events[p].Kind == vdisk.EvBarrier) {
+			sets = sets[:1]
+		} else if len(sets) > 4+cfg.Loss {
+			r.Shuffle(len(sets)-1, func(i, j int) { sets[i+1], sets[j+1] = sets[j+1], sets[i+1] })
+			sets = sets[:4+cfg.Loss]
+		}
+		for _, lost := range sets {
+			img := vdisk.CrashImage(base, events, p, lost)
+			nimg++
+			ok, errs, dump, snap := recoverOn(img, false, Extents{})
+			k := marksBefore[p]
+			key := fmt.Sprint(k, ok, hashOf(dump), hashOf(snap))
+			if seen[key] {
+				continue
+			}
+			seen[key] = true
+			pr := &CrashProbe{Ev: "crashprobe", P: p, NLost: len(lost), Window: len(win), OK: ok, Err: errs, Dump: dump, Snap: snap,
+				Inflight: []*Call{}, RawReads: staleOnly(lastRawReads, 0)}
+			if snap != nil {
+				pr.InoStart = snap.InoStart
+				pr.RawReads = staleOnly(lastRawReads, snap.InoStart)
+			}
+			out[k] = append(out[k], pr)
+		}
+	}
+	fmt.Fprintf(os.Stderr, "conc crash: %d stream events, %d points, %d images, %d distinct\n", len(events), len(pts), nimg, len(seen))
+	return out
 }
